@@ -18,6 +18,7 @@ Record tcase := {
   t_wrap : option N;
   t_kind : stream_kind;
   t_events : list event;
+  t_proc : Z;                        (* ticks the server needs per received datagram *)
   t_v : variants;
   t_nv : nvariants;
   t_na_always_skip : bool            (* D4 variant of the netascii reader *)
@@ -26,7 +27,7 @@ Record tcase := {
 Definition t_neg (c : tcase) : negotiated :=
   negotiate (t_nv c) (t_limits c) (t_netascii c) (t_kind c) (t_options c).
 Definition t_cfg (c : tcase) : cfg :=
-  {| tmo := Z.of_N (n_tmo (t_neg c)) * TICKS; retries := t_retries c; wrap := t_wrap c; v := t_v c |}.
+  {| tmo := Z.of_N (n_tmo (t_neg c)) * TICKS; retries := t_retries c; wrap := t_wrap c; proc := t_proc c; v := t_v c |}.
 Definition t_blocks (c : tcase) : list (list N) :=
   let bs := N.to_nat (n_bs (t_neg c)) in
   if t_netascii c then netascii_blocks (t_na_always_skip c) bs (t_content c) (t_chunks c)
@@ -91,10 +92,10 @@ Definition de_kind (x : sx) : option stream_kind :=
 Definition de_wrap (x : sx) : option (option N) :=
   match x with I z => if (z <? 0)%Z then Some None else Some (Some (Z.to_N z)) | _ => None end.
 
-(* (content chunks netascii options (max_bs max_tmo default_tmo) retries wrap kind events (d1 d5 d2 d3 d4)) *)
+(* (content chunks netascii options (max_bs max_tmo default_tmo) retries wrap kind events proc (d1 d5 d2 d3 d4 d20)) *)
 Definition de_tcase (x : sx) : option tcase :=
   match x with
-  | L [B ct; ch; na; op; L [mb; mt; dt]; rt; wr; kd; ev; L [d1; d5; d2; d3; d4]] =>
+  | L [B ct; ch; na; op; L [mb; mt; dt]; rt; wr; kd; ev; I pr; L [d1; d5; d2; d3; d4; d20]] =>
       obind (asListOf asNat ch) (fun ch =>
       obind (asBool na) (fun na =>
       obind (asListOf de_pair op) (fun op =>
@@ -104,12 +105,12 @@ Definition de_tcase (x : sx) : option tcase :=
       obind (de_kind kd) (fun kd =>
       obind (asListOf de_event ev) (fun ev =>
       obind (asBool d1) (fun d1 => obind (asBool d5) (fun d5 => obind (asBool d2) (fun d2 =>
-      obind (asBool d3) (fun d3 => obind (asBool d4) (fun d4 =>
+      obind (asBool d3) (fun d3 => obind (asBool d4) (fun d4 => obind (asBool d20) (fun d20 =>
       Some {| t_content := ct; t_chunks := ch; t_netascii := na; t_options := op;
               t_limits := {| max_bs := mb; max_tmo := mt; default_tmo := dt |};
-              t_retries := rt; t_wrap := wr; t_kind := kd; t_events := ev;
-              t_v := {| retry_fallthrough := d1; errcode_raises := d5 |};
+              t_retries := rt; t_wrap := wr; t_kind := kd; t_events := ev; t_proc := pr;
+              t_v := {| retry_fallthrough := d1; errcode_raises := d5; late_recv := d20 |};
               t_nv := {| blksize_drop_over_max := d2; tsize_ignores_pos := d3 |};
-              t_na_always_skip := d4 |})))))))))))))))
+              t_na_always_skip := d4 |}))))))))))))))))
   | _ => None
   end.
